@@ -241,7 +241,7 @@ inductive Phase where
 deriving Repr, DecidableEq
 
 inductive Op (ρ : Type) where
-  | start (sel : Bool) (resetPause : Bool)   -- Set<format> calls of START; the LJH 2.2 / LJH3 setters clear the pause flag
+  | start (sel : Bool) (resetPause : Bool)   -- Set<format> calls of START; every setter clears the pause flag (SetOFF too since fix 29d6aef)
   | publish (batch : List ρ)
   | flush
   | pause
@@ -878,6 +878,7 @@ inductive POp where
   | w3 (r : W3)
   | wo (r : WO)
   | p (batch : List Rec)
+  | m (nb : Nat)      -- the channel's model is set again while writing: no effect on a file already started
 deriving Repr
 
 def be16s : Bytes → List Nat
@@ -920,6 +921,7 @@ def pOp : P POp := do
   | "X" => pure .x
   | "Z" => pure .z
   | "U" => pure .u
+  | "M" => do let nb ← nat; pure (.m nb)
   | "S" => do let s ← nat; pure (.s s)
   | "W22" => do
     let frame ← int; let ts ← int; let data ← pData
@@ -989,10 +991,14 @@ def runDirect {ρ} (F : Fmt ρ) (refuseSecondHeader : Bool) (ops : List (Option 
       if F.accept r then (res.push '0', f.write (F.enc r), recs ++ [r]) else (res.push '1', f, recs)
     | _, _ => (res, f, recs)) ("", {}, [])
 
-/-- project the case's ops for one format of the publisher -/
+/-- does START clear `WritingPaused`: every Set<format> called does (LJH 2.2, LJH3, and OFF since fix 29d6aef) -/
+def resetOf (sel : Nat) : Bool := sel % 2 = 1 || sel / 2 % 2 = 1 || sel / 4 % 2 = 1
+
+/-- project the case's ops for one format of the publisher.  `M` (the model set again on the channel) maps to
+nothing: the OFF writer keeps the matrices and the number of bases it was created with at START. -/
 def projOps {ρ} (conv : Rec → ρ) (bit : Nat) (ops : List POp) : List (Op ρ) :=
   ops.filterMap (fun o => match o with
-    | .s sel => some (.start (sel / bit % 2 = 1) (sel % 2 = 1 || sel / 2 % 2 = 1))
+    | .s sel => some (.start (sel / bit % 2 = 1) (resetOf sel))
     | .p batch => some (.publish (batch.map conv))
     | .f => some .flush
     | .z => some .pause
@@ -1050,7 +1056,26 @@ def judge {ρ} (name : String) (implFile : Option Bytes) (modelFile : Option Byt
   | some _, none => .error (.viol ("C05:" ++ name ++ "-file-unexpected a file exists although no record was accepted while writing was active and unpaused"))
   | none, some _ => .error (.viol ("C05:" ++ name ++ "-file-missing no file although records were accepted while writing was active and unpaused"))
 
+/-- where the model was re-sent relative to the OFF file's first record, and pauses issued before START -/
+def historyTags (ops : List POp) : List String :=
+  let r := ops.foldl (fun (acc : Ctl × Bool × List String) o =>
+    let (c, t, tags) := acc
+    match o with
+    | .m _ =>
+      if c.phase == .active && c.sel then (c, t, tags ++ [if t then "remodel-after-first" else "remodel-before-first"])
+      else (c, t, tags)
+    | .p batch => (c, t || (writing c && !batch.isEmpty), tags)
+    | .s sel => (ctlStep (ρ := WO) c (.start (sel / 4 % 2 = 1) (resetOf sel)), t,
+                 if c.phase == .idle && c.paused then tags ++ [if sel = 4 then "paused-before-start-off-only" else "paused-before-start"] else tags)
+    | .z => (ctlStep (ρ := WO) c .pause, t, tags)
+    | .u => (ctlStep (ρ := WO) c .unpause, t, tags)
+    | .x => (ctlStep (ρ := WO) c .stop, t, tags)
+    | _ => (c, t, tags)) (({} : Ctl), false, [])
+  -- a re-sent model before the first record only matters when a file followed
+  (if r.2.1 then r.2.2 else r.2.2.filter (· != "remodel-before-first")).eraseDups
+
 def opsTags (ops : List POp) : List String :=
+  historyTags ops ++
   (if ops.any (fun o => match o with | .f => true | _ => false) then ["flush"] else []) ++
   (if ops.any (fun o => match o with | .z => true | _ => false) then ["pause"] else []) ++
   (if ops.any (fun o => match o with | .u => true | _ => false) then ["unpause"] else [])
@@ -1118,7 +1143,7 @@ def runCase (c : Case) : Verdict :=
       | .p batch =>
         let e := writing ctl && batchErr FO (batch.map toWO)
         (s.push (if e then '1' else '0'), ctl)
-      | .s sel => (s, ctlStep (ρ := WO) ctl (.start (sel / 4 % 2 = 1) (sel % 2 = 1 || sel / 2 % 2 = 1)))
+      | .s sel => (s, ctlStep (ρ := WO) ctl (.start (sel / 4 % 2 = 1) (resetOf sel)))
       | .z => (s, ctlStep (ρ := WO) ctl .pause)
       | .u => (s, ctlStep (ρ := WO) ctl .unpause)
       | .x => (s, ctlStep (ρ := WO) ctl .stop)
